@@ -63,3 +63,10 @@ Print Assumptions schedule_internal_no_lost_wakeup_src.
 Theorem glue_code_shape_src : glue_ok sched_impl_src impl_ctor_src impl_wait_src = true /\ async_unknown_stmts_src = 0%nat.
 Proof. exact src_glue_ok. Qed.
 Print Assumptions glue_code_shape_src.
+
+(* the hypothesis of the pipe contract on the code as it is: owner (WriterTryReadFront) and thief (ReaderTryReadBack) both
+   claim a slot by ONE AtomicCompareAndSwap(&m_Flags[i], FLAG_INVALID, FLAG_CAN_READ), and WriterTryWriteFront refuses a slot
+   that is not FLAG_CAN_WRITE: the only queued item cannot be claimed twice, an unread item is not overwritten *)
+Theorem pipe_claims_atomic_src : pipe_claims_ok pipe_front_claim_src pipe_back_claim_src pipe_write_guard_src = true.
+Proof. exact src_pipe_claims_ok. Qed.
+Print Assumptions pipe_claims_atomic_src.
